@@ -19,7 +19,10 @@ cp $D/demo_test.go $W/$cp_to
 rm -f $W/$cp_to
 ( cd $W && go test -vet=off -count=1 ./... 2>&1 | grep -v "no test files" ) > /tmp/mutant-suite.log; 
 if grep -q "^FAIL\|^--- FAIL" /tmp/mutant-suite.log; then
-  # retry once (TestDescriptor is flaky on the pinned tree)
+  # retry (TestDescriptor is flaky on the pinned tree)
+  ( cd $W && go test -vet=off -count=1 ./... 2>&1 | grep -v "no test files" ) > /tmp/mutant-suite.log
+fi
+if grep -q "^FAIL\|^--- FAIL" /tmp/mutant-suite.log && ! grep "^--- FAIL" /tmp/mutant-suite.log | grep -vq "TestDescriptor "; then
   ( cd $W && go test -vet=off -count=1 ./... 2>&1 | grep -v "no test files" ) > /tmp/mutant-suite.log
 fi
 suite=ok; grep -q "^FAIL\|^--- FAIL" /tmp/mutant-suite.log && suite=FAIL
